@@ -159,7 +159,7 @@ def guarded_generators(prog: Program) -> Set[Tuple[str, str]]:
     return out
 
 
-LATER_RULES = ' Later rules: R19.2 demands imported names as the imports bind them (component found through the call graph); (R19.4) parameter kinds; (R19.5) injective renaming; (R19.6) delete only what was redirected; (R19.7) name-kind agreement and inclusive line containment.'
+LATER_RULES = ' Later rules: R19.2 demands imported names as the imports bind them (component found through the call graph); (R19.4) parameter kinds; (R19.5) injective renaming; (R19.6) delete only what was redirected; (R19.7) name-kind agreement and inclusive line containment. (R19.13) functions are merged as duplicates under a key that spells out builtins, imported and defined names of the module, and every constant.'
 
 
 def check(prog: Program, tier: str) -> Result:
@@ -258,12 +258,13 @@ def check(prog: Program, tier: str) -> Result:
     _r19_10(prog, res)
     _r19_11(prog, res)
     _r19_12(prog, res)
+    _r19_13(prog, res)
     # a renamed binding is rewritten as ONE transaction (R19.3); that only keeps definition and uses together if the
     # scheduler applies a transaction wholly or not at all - decided by the C10 check, adopted here
     from . import c10 as _c10
     res.adopt(_c10.check(prog, tier), {"R10.1", "R10.3", "R10.6"}, "R19.3",
               "a rename is consistent only if its transaction is applied as a whole or not at all")
-    res.floors.update({"R19.1": 8, "R19.2": 4, "R19.3": 2, "R19.4": 1, "R19.5": 1, "R19.6": 1, "R19.7": 2, "R19.8": 6, "R19.9": 1, "R19.10": 1, "R19.11": 3, "R19.12": 1})
+    res.floors.update({"R19.1": 8, "R19.2": 4, "R19.3": 2, "R19.4": 1, "R19.5": 1, "R19.6": 1, "R19.7": 2, "R19.8": 6, "R19.9": 1, "R19.10": 1, "R19.11": 3, "R19.12": 1, "R19.13": 3})
     res.analysed.update({"named_node_constructions_reaching_output": n_ctor, "guarded_name_generators": sorted(f"{a}.{b}" for a, b in gens)})
     return res
 
@@ -942,6 +943,54 @@ def _r19_11(prog: Program, res: Result) -> None:
                    "a closure above the assignment, a lambda parameter keep the old name - one variable becomes two (`last_seen = None` / `for lastSeen in xs`)")
 
 
+# ------------------------------------------------------------------------------------------------ R19.13
+def _r19_13(prog: Program, res: Result) -> None:
+    """Uses of a removed duplicate are redirected to the function that stays: the two must be the same function up to the names
+    they bind THEMSELVES.  The equivalence key (abstractions.hash_node) replaces every name by a counter unless it is in the
+    collection of names that keep their spelling, and hashes the str / int fields of the nodes.  Obligations: (a) where the
+    duplicate remover computes the key, that collection contains the builtins, the names the module defines and the names
+    its imports bind (`len(x)` is not `sum(x)`, `helper_a(x)` is not `helper_b(x)`); (b) the key function hashes the value of
+    every Constant whatever its type (`return 1.5` is not `return 2.5`: a filter for str / int fields lets float, bytes,
+    complex, None through unhashed)."""
+    fn = prog.funcs.get(("fixes", "remove_duplicate_functions"))
+    key_fn = prog.funcs.get(("abstractions", "hash_node"))
+    if fn is None or key_fn is None:
+        raise AnalysisError("anchors fixes.remove_duplicate_functions / abstractions.hash_node not found")
+    calls = [c for c in prog.calls_in(fn) if (lambda r: r and r[0] == "fn" and r[1].key == key_fn.key)(prog.resolve_call(c.func, fn.mod, fn))]
+    if not calls:
+        res.undecided("R19.13", fn.loc(), fn.fq, "equivalence key of duplicate functions", "no call of abstractions.hash_node")
+    for c in calls:
+        kept = call_arg(c, 1, key_fn.posparams[1]) if len(key_fn.posparams) > 1 else None
+        if kept is None:
+            res.ok("R19.13", fn.loc(c), fn.fq, f"{short(c, 60)} # names that keep their spelling", "default: every name keeps its spelling")
+            continue
+        t = _expand(prog, fn, kept)
+        for k_, what in (("BUILTIN_FUNCTIONS", "the builtins"), ("get_defined_names", "the names the module defines")):
+            res.decide(k_ in t, "R19.13", fn.loc(c), fn.fq, f"{short(c, 60)} # names that keep their spelling: {what}",
+                       "component present" if k_ in t else
+                       f"{what} are replaced by counters like local variables: two functions that differ only in WHICH {'builtin' if 'BUILTIN' in k_ else 'function or global'} they use "
+                       "get the same key, one is deleted and its uses are redirected to the other (`def first(x): return len(x)` / `def second(x): return sum(x)`)")
+        present, _red = _import_component(prog, fn, kept)
+        res.decide(present, "R19.13", fn.loc(c), fn.fq, f"{short(c, 60)} # names that keep their spelling: imported names",
+                   "component present" if present else "imported names are replaced by counters: `os.getcwd()` and `sys.getcwd()` get the same key")
+    # (b) constants
+    const_branch = False
+    for n in walk_own(key_fn.node):
+        if isinstance(n, ast.If):
+            tt = norm(n.test).replace(" ", "")
+            if "isinstance(" in tt and "ast.Constant" in tt and any(".value" in norm(x) for b in n.body for x in ast.walk(b) if isinstance(x, ast.Attribute)):
+                const_branch = True
+    generic_ok = False
+    for n in walk_own(key_fn.node):
+        if isinstance(n, ast.Call) and isinstance(n.func, ast.Name) and n.func.id == "isinstance" and len(n.args) == 2 and isinstance(n.args[1], ast.Tuple):
+            kinds = {norm(e) for e in n.args[1].elts}
+            if {"str", "int"} <= kinds and {"float", "bytes", "complex"} <= kinds:
+                generic_ok = True
+    res.decide(const_branch or generic_ok, "R19.13", key_fn.loc(), key_fn.fq, "hash_node() # constants in the equivalence key",
+               "the value of a Constant is hashed whatever its type" if const_branch or generic_ok else
+               "only str and int fields of a node are hashed: float, bytes, complex, None constants all look alike - `return 1.5` and `return 2.5` are merged")
+
+
 def _word_in(word: str, text: str) -> bool:
     import re as _re
     return _re.search(rf"(?<![\w.]){_re.escape(word)}(?![\w])", text) is not None
@@ -1074,6 +1123,12 @@ def _r19_7(prog: Program, res: Result) -> None:
 from ..selftest import Variant  # noqa: E402
 
 VARIANTS: List[Variant] = [
+    Variant("duplicates-keyed-with-builtins-anonymised", "FIRE", "fixes", "        | tracing.get_import_bound_names(root)\n        | constants.BUILTIN_FUNCTIONS\n    )\n    for node in core.filter_nodes(root.body, ast.FunctionDef):",
+            "        | tracing.get_import_bound_names(root)\n    )\n    for node in core.filter_nodes(root.body, ast.FunctionDef):", "R19.13"),
+    Variant("duplicates-keyed-by-the-preserve-set-only", "FIRE", "fixes", "        function_defs[abstractions.hash_node(node, kept_names)].add(node)", "        function_defs[abstractions.hash_node(node, preserve)].add(node)", "R19.13"),
+    Variant("constants-hashed-through-the-str-int-filter-only", "FIRE", "abstractions", "        elif isinstance(child, ast.Constant):\n            things_to_hash.append((type(child.value), repr(child.value)))  # 1, 1.0 and True differ\n", "", "R19.13"),
+    Variant("constants-hashed-by-a-wider-field-filter", "SILENT", "abstractions", "        elif isinstance(child, ast.Constant):\n            things_to_hash.append((type(child.value), repr(child.value)))  # 1, 1.0 and True differ\n", "",
+            extra=[("abstractions", "                if isinstance(value, (str, int))\n                if key not in", "                if isinstance(value, (str, int, float, bytes, complex, type(None), type(...)))\n                if key not in")]),
     Variant("census-taken-before-the-renamings-are-filtered", "FIRE", "fixes", '    renamings = {\n        node: list(substitutes)[0]\n        for node, substitutes in renamings.items()\n        if len(substitutes) == 1 and blacklisted_names.isdisjoint(substitutes)\n    }\n', "    names_left_alone = _names_spelled_elsewhere(ast_tree, renamings)\n" + '    renamings = {\n        node: list(substitutes)[0]\n        for node, substitutes in renamings.items()\n        if len(substitutes) == 1 and blacklisted_names.isdisjoint(substitutes)\n    }\n', "R19.11",
             extra=[("fixes", '    names_left_alone = _names_spelled_elsewhere(ast_tree, renamings)\n    transaction = 0\n', "    transaction = 0\n")]),
     Variant("filtered-renamings-get-a-name-of-their-own", "SILENT", "fixes", '    renamings = {\n        node: list(substitutes)[0]\n        for node, substitutes in renamings.items()\n        if len(substitutes) == 1 and blacklisted_names.isdisjoint(substitutes)\n    }\n', '    renamings = {\n        node: list(substitutes)[0]\n        for node, substitutes in renamings.items()\n        if len(substitutes) == 1 and blacklisted_names.isdisjoint(substitutes)\n    }\n'.replace("    renamings = {", "    candidate_renamings, renamings = renamings, {", 1).replace("in renamings.items()", "in candidate_renamings.items()")),
